@@ -132,7 +132,11 @@ fn gen_quote_num(rng: &mut Rng) -> Num {
     let v = gen_level(rng);
     let kind = rng.weighted(&[60, 25, 15]) as u8;
     // mostly one or two own variables, sometimes up to five
-    let maxvars = if rng.chance(0.1) { 5 } else { 2 };
+    let maxvars = match rng.below(100) {
+        0 => 30,
+        1..=9 => 5,
+        _ => 2,
+    };
     gen_num(rng, kind, v, maxvars, "")
 }
 
